@@ -145,12 +145,13 @@ def pyDecodeF : Nat → Str → Except DecErr Str
   | _ + 1, [] => .ok []
   | n + 1, c :: cs =>
     if c = cDQ ∨ c = cNL then .error .syntax                 -- raw quote / raw newline ends the literal
-    else if c = 13 ∨ c = 0 then .error .unmodelled           -- raw CR / NUL: the tokenizer treats them specially
+    else if c = 13 ∨ c = 0 ∨ c = 11 ∨ c = 12 ∨ c = 28 ∨ c = 29 ∨ c = 30 ∨ c = 133 ∨ c = 8232 ∨ c = 8233 then
+      .error .unmodelled    -- raw CR / NUL (tokenizer) and the other `str.splitlines` boundaries (`textwrap.indent` re-indents after them)
     else if c ≠ cBS then (pyDecodeF n cs).map (c :: ·)
     else match cs with
       | [] => .error .syntax                                 -- dangling backslash
       | d :: ds =>
-        if d = cNL then pyDecodeF n ds                       -- line continuation
+        if d = cNL then .error .unmodelled                   -- line continuation: the next line's indentation joins the string
         else if d = cBS then (pyDecodeF n ds).map (cBS :: ·)
         else if d = 39 then (pyDecodeF n ds).map (39 :: ·)
         else if d = cDQ then (pyDecodeF n ds).map (cDQ :: ·)
@@ -177,7 +178,7 @@ def pyDecodeF : Nat → Str → Except DecErr Str
            | some (v, r) => if v > 1114111 then .error .syntax else (pyDecodeF n r).map (v :: ·)
            | none => .error .syntax)
         else if d = 78 then .error .unmodelled               -- \N{name}
-        else if d = 13 ∨ d = 0 then .error .unmodelled
+        else if d = 13 ∨ d = 0 ∨ d = 11 ∨ d = 12 ∨ d = 28 ∨ d = 29 ∨ d = 30 ∨ d = 133 ∨ d = 8232 ∨ d = 8233 then .error .unmodelled
         else (pyDecodeF n ds).map (fun r => cBS :: d :: r)    -- unknown escape: kept (a warning, not an error)
 
 def pyDecode (s : Str) : Except DecErr Str := pyDecodeF (s.length + 1) s
